@@ -146,6 +146,7 @@ pub fn gen(tier: &str, seed: u64) -> Gen {
         "k v k w", "{1 2} {3 4}", "-0", "0.0", "1.50", "  ", "", "llength {a b}", "list a b", "9223372036854775807",
         "-9223372036854775808", "0b1", "Inf", "NaN", "yes", "off", "set n", "incr m; incr m", "return $n", "{",
         "a {b c} d e", "1 ", "\n2", "$n", "[incr m]", "x;y", "\"p }\" x", "\"{\" q", "a\\ b c", "{a}  {b}",
+        "0XA", "0X1f", "+0x10", " 0x10 ", "1E2", "1e+2", ".5", "5.", "0o17", "1_000", "\\ {", "a\\ }", "}{", "x}y{z",
     ];
     let views: [(&str, &str); 17] = [
         ("incr m $s", "incr m [ident $s]"),
